@@ -325,6 +325,29 @@ def decimal_sum_game(rng):
     return finish(rewards, players, xtl, [win], {"family": "decimal_sum"})
 
 
+def parallel_dead_game(rng):
+    """a probabilistic state with two or more PARALLEL transitions into one and the same dead state
+    (and into one live state), below a player state that has a competing action; conditioning must
+    remove the whole parallel mass"""
+    k = rng.choice([P1, P2])
+    # 0: k  a->1 , b->2 ; 1: chance with parallel dead edges ; 2: competitor ; 3: live target ; 4: dead ; 5: lose ; 6: win
+    parts = rng.choice([[Fr(1, 4), Fr(1, 4), Fr(1, 2)], [Fr(1, 8), Fr(1, 8), Fr(1, 4), Fr(1, 2)], [Fr(1, 5), Fr(2, 5), Fr(2, 5)],
+                        [Fr(3, 10), Fr(3, 10), Fr(2, 5)]])
+    row1 = [(p, 4) for p in parts[:-1]] + [(parts[-1], 3)]
+    if rng.random() < 0.5:
+        row1.insert(rng.randrange(len(row1)), row1.pop())       # survivor not last
+    r3 = rng.choice([6, 9, 10])
+    players = [k, PR, PR, PR, PR, PR, PR]
+    rewards = [0, 0, 0, r3, rng.choice([0, 5]), 0, 0]
+    xtl = [[("a", 1), ("b", 2)], row1,
+           [(Fr(1), 6)] if rng.random() < 0.5 else [(Fr(1, 2), 6), (Fr(1, 2), 6)],
+           [(Fr(1), 6)], [(Fr(1), 5)], [(Fr(1), 5)], [(Fr(1), 6)]]
+    rewards[2] = rng.choice([r3 - 1, r3 + 1, 0])
+    if rng.random() < 0.5:
+        xtl[0].reverse()
+    return finish(rewards, players, xtl, [6], {"family": "parallel_dead"})
+
+
 def multi_final_game(rng):
     """several final states, one of them NOT absorbing, owned by any kind of state, with a path to
     another final state and an exit to a dead sink; the initial state is that final state or leads
